@@ -4,6 +4,11 @@ Local Open Scope Z_scope.
 
 Definition amt28 (p : bpost) : Z := d28 (bp_amt p).
 
+(* well-formed inputs: what AccountTreeNode::from and Decimal guarantee *)
+Definition comp_ok (c : list N) : Prop := c <> [] /\ ~ In colon c.
+Definition acct_wf (a : acct) : Prop := a <> [] /\ Forall comp_ok a.
+Definition bpost_wf (p : bpost) : Prop := dwf (bp_amt p) /\ acct_wf (bp_acc p).
+
 (* exact sum of the postings to exactly this (account, commodity) *)
 Definition spec_own (ps : list bpost) (k : key) : Z :=
   zsum (map amt28 (filter (fun p => key_eqb (bp_key p) k) ps)).
